@@ -1,0 +1,19 @@
+//go:build verif
+
+package websocket
+
+import "github.com/aptpod/iscp-go/transport/compress"
+
+// VerifWindows returns copies of the write and read dictionaries of the context-takeover mode.
+func (t *Transport) VerifWindows() (write, read []byte) {
+	t.writeWindowBufMu.Lock()
+	write = append([]byte(nil), t.writeWindowBuf.Bytes()...)
+	t.writeWindowBufMu.Unlock()
+	t.readWindowBufMu.Lock()
+	read = append([]byte(nil), t.readWindowBuf.Bytes()...)
+	t.readWindowBufMu.Unlock()
+	return
+}
+
+// VerifCompressConfig returns the effective compression configuration the mode was selected from.
+func (t *Transport) VerifCompressConfig() compress.Config { return t.compressConfig }
